@@ -1,7 +1,8 @@
 import CalicoVerif.Model.C11Ref
 /-
 C12 — model of app-policy/checker (`checkTiers`, `checkRules`,
-`matchL4Protocol`; L3/L4 subset = protocol / not-protocol criteria) and of the
+`matchL4Protocol`, `matchSrcNet`/`matchDstNet`; L3/L4 subset = protocol / not-protocol and literal
+CIDR criteria) and of the
 iptables/nftables PROFILE semantics of felix/rules/endpoints.go (jump to each
 profile chain, return only if the accept mark is set), over the C11 policy
 types.  The BPF side is `C11.verdict`.  Core Lean only.
@@ -52,6 +53,34 @@ def checkRules (n : Int) : List Rule → Option CAct
       | some a => some a
     else checkRules n rs
 
+/-! ### The checker with literal CIDR matches (`matchSrcNet` / `matchDstNet`)
+
+`net.IPNet.Contains` for an IPv4 address: the masked address equals the masked network (a CIDR of
+the other family never contains it).  `matchNet`: an empty list matches; `matchNotNet`: no CIDR of
+the list may contain the address.  The checker does NOT filter rules by IP version. -/
+
+def cidrHas4 (a : Nat) (n : Net) : Bool :=
+  !n.v6 && (BitVec.ofNat 32 a &&& mask32bv n.pfx == BitVec.ofNat 32 n.addr &&& mask32bv n.pfx)
+
+def matchNetC (nets : List Net) (a : Nat) : Bool := nets.isEmpty || nets.any (cidrHas4 a)
+
+def matchNotNetC (nets : List Net) (a : Nat) : Bool := !nets.any (cidrHas4 a)
+
+/-- `match` restricted to the criteria modelled here: source nets, destination nets, protocol. -/
+def matchRuleN (r : Rule) (n : Int) (src dst : Nat) : Bool :=
+  (matchNetC r.srcNet src && matchNotNetC r.notSrcNet src) &&
+  (matchNetC r.dstNet dst && matchNotNetC r.notDstNet dst) && matchL4Protocol r n
+
+def checkRulesN (n : Int) (src dst : Nat) : List Rule → Option CAct
+  | [] => some .noMatch
+  | r :: rs =>
+    if matchRuleN r n src dst then
+      match actionFromString r.action with
+      | none => none
+      | some .log => checkRulesN n src dst rs
+      | some a => some a
+    else checkRulesN n src dst rs
+
 /-- The policy loop of one tier in `checkTiers`: `some (some v)` = verdict
 reached, `some none` = go on (with `matched` = a PASS broke out of the loop). -/
 inductive TierRes | allow | deny | passed | noMatch | invalid
@@ -95,6 +124,44 @@ def checkTiers (n : Int) (profiles : List Policy) : List Tier → Option Bool
       | .noMatch =>
         match t.endAction with
         | .pass => checkTiers n profiles ts
+        | _ => some false
+
+def checkPoliciesN (n : Int) (src dst : Nat) : List Policy → TierRes
+  | [] => .noMatch
+  | pol :: ps =>
+    match checkRulesN n src dst pol.rules with
+    | none => .invalid
+    | some .noMatch => checkPoliciesN n src dst ps
+    | some .allow => .allow
+    | some .deny => .deny
+    | some .pass => .passed
+    | some .log => .invalid
+
+def checkProfilesN (n : Int) (src dst : Nat) : List Policy → Option Bool
+  | [] => some false
+  | pr :: ps =>
+    match checkRulesN n src dst pr.rules with
+    | none => none
+    | some .noMatch => checkProfilesN n src dst ps
+    | some .allow => some true
+    | some .deny => some false
+    | some .pass => some false
+    | some .log => none
+
+/-- `checkTiers` with the CIDR criteria. -/
+def checkTiersN (n : Int) (src dst : Nat) (profiles : List Policy) : List Tier → Option Bool
+  | [] => checkProfilesN n src dst profiles
+  | t :: ts =>
+    if t.policies.isEmpty then checkTiersN n src dst profiles ts
+    else
+      match checkPoliciesN n src dst t.policies with
+      | .allow => some true
+      | .deny => some false
+      | .invalid => none
+      | .passed => checkTiersN n src dst profiles ts
+      | .noMatch =>
+        match t.endAction with
+        | .pass => checkTiersN n src dst profiles ts
         | _ => some false
 
 /-! ### iptables/nftables (felix/rules/endpoints.go + policy.go), at the level of the mark bits
